@@ -12,12 +12,12 @@ CHECKS = {
    text='Per corpus circuit one symbolic run of the real 4-/8-valued c_prop with all three bit planes of every input lane symbolic; z3 decides (i) every captured value equals the '
         'gate-by-gate composition of the documented operators modulo {X,-}, (ii) every non-unknown result component equals the 2-valued netlist value of ANY 0/1 completion of the unknown inputs, '
         '(iii) known inputs give known outputs. Also under c_reuse / strip_forks and for a second propagation on the same simulator object (both stimuli symbolic). Data-dependent fast paths in the operators fork (E2). Structure enumerated (bounded corpus), values exhaustive by solver.',
-   note='Trusted: vlib/specmv.py + vlib/ref2.py oracles, z3. MUX21 spec = OR(AND(i0,NOT s),AND(i1,s)). s_ppo_to_ppi with X/- in 8-valued mode outside the statement.'),
+   note='Trusted: vlib/specmv.py + vlib/ref2.py oracles, z3. MUX21 spec = OR(AND(i0,NOT s),AND(i1,s)). s_ppo_to_ppi with X/- in 8-valued mode outside the statement. Batches beyond 17 patterns: one concrete differential with 2^19+512 patterns (whole batch vs pieces), not a solver verdict.'),
  'C12': dict(engine='E1-lanes + E2-symx', category='model_checking', design_ref='DESIGN.md §2.2, §5 C12',
    technique='bp operators: one-path symbolic execution + z3; mv operators: forking symbolic execution of the real numpy code on symbolic codes, every path replayed on real uint8 arrays',
    text='All value combinations of 1..4 operands are decided by z3 for the real bp4v_*/bp8v_* (terms over 8 lanes x planes) and the real mv_*/_mv_* (every feasible path of the numpy mask logic), '
         'against the documented algebra (modulo {X,-}), the Boolean restriction, De Morgan duality, exact mv-vs-bp agreement and delivery in a caller-supplied out array. Shapes/broadcast cases enumerated.',
-   note='Trusted: vlib/specmv.py, z3, numpy object-array dispatch; np.empty shimmed to object arrays in symbolic runs, each path cross-checked on real uint8 arrays. Scalar (0-d) operands not covered.'),
+   note='Trusted: vlib/specmv.py, z3, numpy object-array dispatch; np.empty shimmed to object arrays in symbolic runs, each path cross-checked on real uint8 arrays. Scalar (0-d) operands not covered. Arrays beyond the symbolic sizes: one concrete differential with 65560 bytes per plane (whole array vs pieces), not a solver verdict.'),
  'C16': dict(engine='E1-lanes', category='model_checking', design_ref='DESIGN.md §5 C16',
    technique='symbolic execution of the real c_prop(inject_cb) with a callback that writes fresh symbolic planes + SMT equivalence with the oracle of the cut circuit; concrete call-trace comparison',
    text='For every line of every small-corpus circuit and every logic (2/4/8) the real c_prop runs symbolically with a callback overwriting that line with fresh variables; z3 decides that s[1] equals the '
@@ -33,7 +33,7 @@ CHECKS = {
    technique='before/after SMT equivalence: transformed circuits run symbolically through the real LogicSim; oracle = ref2 of the original graph resp. hierarchical evaluation of the implementation circuit',
    text='Every transformation sequence (copy, pickle, eliminate_1to1_forks; length <= 2/3) on the corpus and every distinct library implementation of five libraries (all pins connected, each single input or '
         'output open, fan-out variant, post-transformations), plus custom implementation shapes with all pin subsets: z3 decides function preservation for all stimuli; s_nodes name lists compared exactly.',
-   note='Trusted: ref2 + hierarchical oracle (open pin = 0), z3. Instances built with the Circuit API. Known findings: latch cells whose names lack "latch" become state elements on resolution; sized AND/NAND with trailing open pin; state cell with all outputs open is removed.'),
+   note='Trusted: ref2 + hierarchical oracle (open pin = 0), z3. Instances built with the Circuit API. Known findings: latch cells whose names lack "latch" become state elements on resolution; sized AND/NAND with trailing open pin; state cell with all outputs open is removed; node removal permutes the order of state elements in s_nodes.'),
  'C03': dict(engine='E2-symx', category='model_checking', design_ref='DESIGN.md §3, §4, §5 C03',
    technique='forking symbolic execution (z3, real arithmetic) of the real _wave_eval / s_to_c / whole WaveSim runs; kernel lemmas L-WF + L-BOOL as inductive step; QF_FP float lemmas; float32 replay of every path',
    text='Every feasible path of one call of the real waveform kernel on arbitrary well-formed operand waveforms (symbolic times, 4 symbolic delays per line, capacities that force the overflow branch) is explored and z3/'
@@ -77,7 +77,7 @@ CHECKS = {
    technique='forking symbolic execution of the real interpret/mvarray/mv_str on symbolic characters; symbolic bit-vector contents through the real mv_to_bp/bp_to_mv/packbits/unpackbits with numpy bit-packing stubs; the real popcount executed on arrays of symbolic uint8 elements (z3 bit-vectors)',
    text='Every path of the alias matching for symbolic characters (strings up to length 2/3 fully symbolic, one symbolic character at every position of longer strings) is compared with the documented alias table and rendered back; '
         'mv<->bp round trips, axis convention and padding lanes, and the generic pack/unpack helpers for eight integer dtypes are decided by z3 per output bit for all contents; popcount = number of one bits, decided by z3 on the term the real function builds (one arbitrary byte per query, neighbours over four corner values).',
-   note='np.packbits / np.unpackbits / ndarray.view are stubs written from the numpy documentation and differentially validated on every run; shapes, pattern counts and dtypes enumerated.'),
+   note='np.packbits / np.unpackbits / ndarray.view are stubs written from the numpy documentation and differentially validated on every run; shapes, pattern counts and dtypes (incl. non-native byte order, round trip only) enumerated. Sizes beyond the symbolic bound (popcount up to 2^22+3 bytes, mv/bp conversion of > 2^20 values): concrete differentials, not solver verdicts.'),
  'C20': dict(engine='E2-symx', category='model_checking', design_ref='DESIGN.md §5 C20, §7',
    technique='symbolic-integer execution of the real DefWire/DefNet post-processing (z3 validity of resolved coordinates and via-array positions) + rendered-text enumeration for grammar and transformer',
    text='For every wildcard pattern and via kind on wires with <= 3/4 points, with coordinates and array steps as symbolic integers, z3 proves that resolved coordinates equal the previous point\'s, via arrays expand to all n x m '
